@@ -111,6 +111,69 @@ def calendar_rule(prog, run):
               "day %s of era %s converts to %s, the calendar says %s" % (bad[1], bad[0], bad[2], bad[3]) if bad else "", mir.loc_of(b))
 
 
+def verbatim_setters(prog, run, R):
+    """attribute setters store what they are given: title / language / creation time := the parameter itself (owned copy), on every
+    route (Metadata::with_x and the MuxerBuilder aliases), and the value is not rewritten in place on the way"""
+    from .. import mir, sym
+    u = prog.lib
+    # attribute setters store what they are given: title / language / creation time := the parameter itself (owned copy), on every route
+    from .. import sym
+    g = mir.Graph(u)
+    st = mir.Stores(g)
+    CONV = {"into", "to_string", "to_owned", "from", "clone", "to_vec", "as_ref", "as_str", "deref"}
+    k = 0
+    for p, b in sorted(u.bodies.items()):
+        if b["in_test_cfg"] or not mir.norm(p).startswith("api::") or b.get("kind") == "Closure":
+            continue
+        stores_ = []
+        for blk in b["blocks"]:
+            if blk.get("cleanup"):
+                continue
+            for st_ in blk["stmts"]:
+                if st_["k"] == "assign" and st_["place"]["p"] and st_["place"]["p"][-1].get("k") == "field" and st_["place"]["p"][-1].get("name") in ("title", "language", "creation_time") \
+                        and "Metadata" in str(st_["place"]["p"][-1].get("adt")):
+                    stores_.append((st_["place"]["p"][-1]["name"], st_))
+        for (fname_, node) in stores_:
+            path = (fname_,)
+            e = sym.expr_rv(b, node["rv"])
+            calls_ = [t_ for t_ in sym.walk(e) if isinstance(t_, tuple) and t_ and t_[0] == "call"]
+            leaves = [t_ for t_ in sym.walk(e) if isinstance(t_, tuple) and t_ and t_[0] in ("arg",)]
+            foreign = [c_[1] for c_ in calls_ if c_[1].split("::")[-1] not in CONV]
+            if not leaves:
+                continue        # constants / None (constructors, clearing) and `with_current_time` (no submitted value: the clock, by contract)
+            # locals the stored value travels through must not be lent out mutably on the way (in-place rewriting: make_ascii_lowercase, truncate, ..)
+            chain = set()
+            def ops_of(rv):
+                if rv["k"] == "use":
+                    return [rv["op"]]
+                if rv["k"] == "aggregate":
+                    return list(rv["ops"])
+                if rv["k"] == "cast":
+                    return [rv["op"]]
+                return []
+            work = [o["place"]["l"] for o in ops_of(node["rv"]) if o.get("k") in ("move", "copy") and not o["place"]["p"]]
+            while work:
+                l_ = work.pop()
+                if l_ in chain or 1 <= l_ <= b["argc"]:
+                    continue
+                chain.add(l_)
+                for d_ in mir.defs(b).get(l_, []):
+                    if d_[0] == "stmt":
+                        work += [o["place"]["l"] for o in ops_of(d_[3]["rv"]) if o.get("k") in ("move", "copy") and not o["place"]["p"]]
+            lent = []
+            for blk2 in b["blocks"]:
+                for st2 in blk2["stmts"]:
+                    if st2["k"] == "assign" and st2["rv"]["k"] == "ref" and st2["rv"].get("mut") and st2["rv"]["place"]["l"] in chain and not st2["rv"]["place"]["p"]:
+                        lent.append(mir.loc_of(st2))
+            if lent:
+                foreign.append("in-place mutation through `&mut` at %s" % lent[0])
+            k += 1
+            run.check(not foreign and len({l_[1] for l_ in leaves}) == 1, R, "verbatim %s.%s" % (mir.norm(p).split("::")[-1], path[-1]), "stored = the parameter (owned copy)",
+                      "`%s` stores %s into `%s`: the attribute is rewritten on this route (%s), so two routes to the same attribute can disagree and the stored value is not the submitted one" %
+                      (mir.norm(p), sym.show(e)[:100], path[-1], ", ".join(sorted(set(foreign)))[:100] or "not a single parameter"), mir.loc_of(node))
+    run.floor(R, k, 4, "attribute stores in the API setters")
+
+
 def setter_rule(prog, run):
     """R5: the builder's metadata setters are independent: only a setter that takes the whole `Metadata` value may replace the
     builder's metadata wholesale; a setter for one attribute (language, creation time) must update it in place, otherwise a
@@ -132,6 +195,7 @@ def setter_rule(prog, run):
         run.check(kind == "update" or whole, "R5", "setter %s" % m, "%s the metadata (%s)" % ("replaces" if kind == "replace" else "updates", "takes the whole Metadata value" if whole else "one attribute"),
                   "`%s` takes a single attribute but replaces the builder's whole metadata: a title, creation time or language configured earlier is lost" % m, mir.loc_of(b))
     run.floor("R5", n, 3, "builder methods that write the metadata")
+    verbatim_setters(prog, run, "R5")
 
 
 def time_of_day_rule(prog, run, cal_fn, R="R4"):
@@ -340,6 +404,38 @@ def check(prog, run):
             ok = lang[0] == "expr" and L.mentions(lang[1], lambda y: y == ("str", "und")) and mentions_meta(lang[1]) and "language" in fn_ and not (fn_ & {"title", "creation_time"})
             d = L.show(lang[1])[:100] if lang[0] == "expr" else str(lang)
             run.check(ok, "R3", "mdhd-language #%d" % n, "language = f(metadata.language or 'und')", "mdhd language field is %s" % d)
+            # the string handed to the packing is the configured code itself (or `und`): nothing rewrites it on the way
+            if lang[0] == "expr":
+                srcs = []
+                def walk_(y):
+                    if isinstance(y, tuple):
+                        if y[:2] == ("mcall", "core::str::chars") or (y[:1] == ("mcall",) and str(y[1]).split("::")[-1] in ("chars", "bytes", "as_bytes") and "str" in str(y[1])):
+                            srcs.append(y[2])
+                        for z in y:
+                            walk_(z)
+                    elif isinstance(y, list):
+                        for z in y:
+                            walk_(z)
+                walk_(lang[1])
+                PLUMB = {"unwrap_or", "and_then", "as_deref", "as_ref", "map", "as_str", "deref", "unwrap_or_default", "clone", "as_deref_mut", "borrow"}
+                def rewritten(x):
+                    bad_ = []
+                    def w2(y):
+                        if isinstance(y, tuple):
+                            if y[:1] == ("call",):
+                                bad_.append(str(y[1]))
+                            if y[:1] == ("mcall",) and str(y[1]).split("::")[-1] not in PLUMB:
+                                bad_.append(str(y[1]))
+                            for z in y:
+                                w2(z)
+                        elif isinstance(y, list):
+                            for z in y:
+                                w2(z)
+                    w2(x)
+                    return bad_
+                bad_all = [b_ for x in srcs for b_ in rewritten(x)]
+                run.check(bool(srcs) and not bad_all, "R3", "mdhd-language #%d verbatim" % n, "the packed string is metadata.language (or `und`) itself",
+                          "the language code is passed through %s before it is packed: the configured code is not the one a reader recovers" % sorted(set(bad_all))[:3] if bad_all else "no string source found in the language field")
             n += 1
             continue
         dirty = [s for s in own if s[0] not in ("alt", "match", "rep") and mentions_meta(s)]
